@@ -173,6 +173,12 @@ def run(ctx: Ctx):
                             case["ops"][oi][0], "other:" + case["ops"][oi][0]))
                         if case["ops"][oi][0] == "rcmd" and case["ops"][oi][3] == ["shutdown"]:
                             ctx.count("iface-toggle-inside-delivery:node-powered-off-by-a-remote-command")
+        for forest in r["forests"]:
+            for e in rig.walk(forest):
+                if e["t"] == "W" and any(x["t"] == "F" and x["k"] == e["k"] for x in rig.walk(e["children"])):
+                    ctx.count("wireless-iface-toggle-while-a-frame-is-in-the-air-on-its-channel")
+                if e["t"] == "R":
+                    ctx.count("wireless:heard")
         for k, v in r.get("info", {}).items():
             ctx.count("observed:" + k, v)
         if "topo" in case and rig.ALT_NAME in case["topo"].get("freqs", []):
